@@ -136,6 +136,7 @@ func (e *Env) RFragHelpers() {
 func (e *Env) RFragOrder() {
 	e.RAttachWithinFile()
 	e.RStageMonotone()
+	e.RFragDecorationPositions()
 	pkg := e.Prog.Pkg(load.PkgDecorator)
 	info := pkg.TypesInfo
 	c := e.Sib.Ctx[load.PkgDecorator]
@@ -528,4 +529,40 @@ func (e *Env) RStageMonotone() {
 	}
 	e.Run.Analysed("stage assignments", len(asgs))
 	e.Run.Floor("R-FRAG", "stage assignments in findIndentedComments", len(asgs), 1)
+}
+
+// RFragDecorationPositions (R-FRAG): where a decoration point sits in the position-ordered
+// fragment list. The fragger gives the Start point of a node the node's own Pos(), its End point
+// the node's End(), and every inner point no position of its own (token.NoPos: it takes the cursor,
+// i.e. the end of the element emitted before it). Any other position — the End point at Pos(),
+// an inner point at the position of the following token — moves the point across tokens and
+// comments in the sorted list (and addDecorationFragment adopts a valid position as the cursor, so
+// a position that lies before the cursor also drags every following position-less fragment back):
+// comments attach to other points and are rendered elsewhere.
+func (e *Env) RFragDecorationPositions() {
+	fr := e.Sib.ByName["fragger"]
+	n := 0
+	for _, tn := range fr.Order {
+		cs := fr.Cases[tn]
+		if cs == nil {
+			continue
+		}
+		for _, ev := range cs.Events {
+			if ev.Kind != schema.KDec {
+				continue
+			}
+			n++
+			want := "NoPos"
+			switch ev.Name {
+			case "Start":
+				want = "Pos()"
+			case "End":
+				want = "End()"
+			}
+			e.Run.Check("R-FRAG", fmt.Sprintf("fragger %s: decoration point %s is positioned by the node's extent (Start: Pos(), End: End()) or by the cursor", tn, ev.Name), e.Prog.Pos(ev.Pos), ev.Expr == want,
+				fmt.Sprintf("positioned at %s, expected %s", ev.Expr, want))
+		}
+	}
+	e.Run.Analysed("fragger decoration points", n)
+	e.Run.Floor("R-FRAG", "fragger decoration points", n, 150)
 }
